@@ -29,10 +29,13 @@
     as fixed by /repo commit 80a5b27 (header re-read after a FULL/RESTART
     PRAGMA, [restartedBeforeCheckpoint]), [false] the control flow before it.
     [postcopy : bool] likewise for /repo commit 6edd82b (one more copy after a
-    FULL/RESTART PRAGMA when the header is unchanged).  The post-PRAGMA
-    decisions are the separate functions [mid_restarted], [needs_post] and
-    [ck_decide], which Db/MachineEntry.v exposes for trace conformance with
-    db.go.
+    FULL/RESTART PRAGMA when the header is unchanged) and [recheck : bool] for
+    /repo commit bb88a29 (header read once more after that copy); /repo HEAD is
+    [true true true], the three defects these commits repaired (F14, F15, F16)
+    are the [..._refuted] theorems about [false false false], [true false
+    false], [true true false].  The post-PRAGMA decisions are the separate
+    functions [mid_restarted], [needs_post], [post_rb] and [ck_decide], which
+    Db/MachineEntry.v exposes for trace conformance with db.go.
 
     SQLite's locking as the environment steps enforce it (wal.c): while
     litestream holds read mark m > 0, no checkpoint backfills past m and nobody
@@ -57,9 +60,9 @@ Variable midcheck : bool.
     checkpoint whose header re-read found the header unchanged, the WAL is copied
     once more before the bump); [postcopy = false]: without it. *)
 Variable postcopy : bool.
-(** [recheck = true]: a PROPOSED further change, not in /repo: after that copy the
-    header is read once more and a difference also forces the boundary snapshot;
-    [recheck = false]: the code as it stands. *)
+(** [recheck = true]: additionally /repo commit bb88a29 (after that copy the
+    header is read once more and a difference also forces the boundary snapshot);
+    [recheck = false]: without it.  /repo HEAD is [true true true]. *)
 Variable recheck : bool.
 
 Definition tx : Type := list (frame data).
@@ -349,6 +352,9 @@ Definition needs_post (m : mode) (rb : bool) : bool := postcopy && frb m && negb
 Definition post_pending (p : pcT) : bool :=
   match p with PMid m _ _ _ rb => needs_post m rb | _ => false end.
 
+(** restartedBeforeCheckpoint after the copy: the header read of commit bb88a29 *)
+Definition post_rb (hg g : nat) : bool := recheck && negb (hg =? g).
+
 Inductive ckdec := DNotRestarted | DRecopy | DBoundary.
 
 (** [g]: generation of the header read after the bump ([other]) *)
@@ -463,9 +469,9 @@ Definition step (s : state) (l : label) : option state :=
           if needs_post m rb then None
           else Some (set_wlock (set_pc s (PUnlocked m hg pre wn rb)) false)
       | PPost m hg pre wn =>
-          (* proposed: restartedBeforeCheckpoint is recomputed from a header read after the copy *)
-          (* no barrier to roll back in these modes *)
-          Some (set_pc s (PUnlocked m hg pre wn (recheck && negb (hg =? gen s))))
+          (* restartedBeforeCheckpoint is recomputed from a header read after the copy;
+             no barrier to roll back in these modes *)
+          Some (set_pc s (PUnlocked m hg pre wn (post_rb hg (gen s))))
       | _ => None
       end
   | LsBump t r =>
@@ -508,8 +514,8 @@ Definition label_ok (s : state) (l : label) : Prop :=
     behind a transaction it has not copied (appended and backfilled while its
     read transaction was released); a commit that restarts the WAL in that
     instant is not seen by the re-read, the copy continues from the new header
-    on evidence (C).  [window_ok] excludes exactly such a restart; with the
-    proposed [recheck] it excludes nothing. *)
+    on evidence (C).  [window_ok] excludes exactly such a restart; with
+    [recheck] (commit bb88a29) it excludes nothing. *)
 Definition window_ok (s : state) (l : label) : bool :=
   match l with
   | AppCommit _ true | AppTruncate => recheck || negb (post_pending (pc s))
